@@ -576,7 +576,8 @@ func Expect(op Op, p St, res Result) []Alt {
 		sub := op
 		sub.Exp = ExpSpec{Kind: "zero"}
 		sres := res
-		if op.CbExp != nil {
+		cbExp := op.CbExp != nil && !(op.CbExpOnce && len(res.Cb) > 1) // (the applied attempt is the last one)
+		if cbExp {
 			sub.Exp = *op.CbExp
 			sres.ExpArg = res.CbExpArg
 		}
@@ -618,7 +619,7 @@ func Expect(op Op, p St, res Result) []Alt {
 		for i := range alts {
 			if !alts[i].Same {
 				alts[i].Ret = cbCheck
-				if op.CbExp == nil && !alts[i].ExpFree {
+				if !cbExp && !alts[i].ExpFree {
 					// the exp argument is accepted as the default too (interface comment vs code)
 					l2, h2 := expRange(op.Exp, res)
 					if l2 == h2 {
